@@ -78,6 +78,8 @@ type interpreter struct {
 	funcsSeen map[*ssa.Function]bool // functions executed (evidence)
 	curFrame  *frame
 	lastPanicWhere string
+	spec           bool // speculative evaluation of a pure branch arm (tryMerge)
+	noMerge        bool
 }
 
 type deferred struct {
@@ -99,6 +101,7 @@ type frame struct {
 	panicking        bool
 	panic            interface{}
 	phitemps         []value // temporaries for parallel phi assignment
+	skipPhis         bool
 	curInstr         ssa.Instruction
 }
 
@@ -338,6 +341,11 @@ func visitInstr(fr *frame, instr ssa.Instruction) continuation {
 		in.storeTo(mustDeref(instr.Addr.Type()), fr.get(instr.Addr), fr.get(instr.Val))
 
 	case *ssa.If:
+		if tm, ok := fr.get(instr.Cond).(*Term); ok && tm.Op != OpConst && in.path != nil && !in.spec {
+			if in.tryMerge(fr, tm) {
+				return kJump
+			}
+		}
 		succ := 1
 		if in.truth(fr.get(instr.Cond)) {
 			succ = 0
@@ -728,6 +736,11 @@ func executePhis(fr *frame) []ssa.Instruction {
 	// Inv: 0 <= firstNonPhi; every block contains a non-phi.
 
 	nonPhis := fr.block.Instrs[firstNonPhi:]
+	if fr.skipPhis {
+		// phis were already assigned by tryMerge
+		fr.skipPhis = false
+		return nonPhis
+	}
 	if firstNonPhi > 0 {
 		phis := fr.block.Instrs[:firstNonPhi]
 		predIndex := slices.Index(fr.block.Preds, fr.prevBlock)
